@@ -199,6 +199,36 @@ def _multi_block(S):
     ideal.add_ideal_obligation(S, 'Mechanics.create_multi_block_mechanics_functions/energy_equals_single_block_energy', [], [(J.scalar(e1), J.scalar(e2))])
     ideal.add_ideal_obligation(S, 'Mechanics.create_multi_block_mechanics_functions/stiffness_equals_single_block_stiffness', [], _eq_arrays(k1, k2))
     ideal.add_ideal_obligation(S, 'Mechanics.create_multi_block_mechanics_functions/internal_variable_update_equals_single_block_update', [], _eq_arrays(q1, q2))
+    # the same with pressure projection: the volume-averaging kernel is a callee (its own clauses: totality + bounded), replaced here by an
+    # uninterpreted function of its arguments, so that energy and state update of the two factories must hand it the same data
+    real_avg = Mechanics.volume_average_J_gradient_transformation
+
+    def avg_stub(elemDispGrads, elemVols, pShapes):
+        flat = [elemDispGrads[q_, i, j] for q_ in range(elemDispGrads.shape[0]) for i in range(2) for j in range(2)] + [elemVols[q_] for q_ in range(elemVols.shape[0])]
+        rows = [jnp.stack([jnp.stack([J.uf('avgJ_%d_%d_%d' % (q_, i, j), *flat) for j in range(2)]) for i in range(2)]) for q_ in range(elemDispGrads.shape[0])]
+        return jnp.stack(rows)
+    Mechanics.volume_average_J_gradient_transformation = avg_stub
+    # the projection space (reference element of degree 0 and its shape values at the quadrature points) does not depend on the symbolic
+    # data: evaluated outside the trace
+    from optimism import Interpolants
+    real_mpe, real_cs = Interpolants.make_parent_element_2d, Interpolants.compute_shapes
+    pe0 = real_mpe(degree=0)
+    sh0 = real_cs(pe0, jnp.zeros((NQ, 2)))
+    Interpolants.make_parent_element_2d = lambda degree: pe0 if degree == 0 else real_mpe(degree)
+    Interpolants.compute_shapes = lambda pe, xi: sh0 if pe is pe0 else real_cs(pe, xi)
+    try:
+        def fns_p(N_, vol_, dN_, X_, U_, Q_, dt_):
+            single = Mechanics.create_mechanics_functions(_fs(N_, vol_, dN_, X_, conns), 'plane strain', Material(), pressureProjectionDegree=0)
+            multi = Mechanics.create_multi_block_mechanics_functions(_fs(N_, vol_, dN_, X_, conns, blocks), 'plane strain',
+                                                                     {'right': Material(), 'left': Material()}, pressureProjectionDegree=0)
+            return (single.compute_strain_energy(U_, Q_, dt_), multi.compute_strain_energy(U_, Q_, dt_),
+                    single.compute_updated_internal_variables(U_, Q_, dt_), multi.compute_updated_internal_variables(U_, Q_, dt_))
+        e1, e2, q1, q2 = J.symbolic_call(fns_p, N, vol, dN, X, U, Q, dt)
+    finally:
+        Mechanics.volume_average_J_gradient_transformation = real_avg
+        Interpolants.make_parent_element_2d, Interpolants.compute_shapes = real_mpe, real_cs
+    ideal.add_ideal_obligation(S, 'Mechanics.create_multi_block_mechanics_functions/energy_equals_single_block_energy[with pressure projection]', [], [(J.scalar(e1), J.scalar(e2))])
+    ideal.add_ideal_obligation(S, 'Mechanics.create_multi_block_mechanics_functions/internal_variable_update_equals_single_block_update[with pressure projection]', [], _eq_arrays(q1, q2))
 
 
 # ---------------------------------------------------------------------------
